@@ -153,7 +153,19 @@ def collision_pool(template):
         for k in (1, 2, 3):
             pool.append(pre + (('%%0%dd' % int(width)) % k if width else str(k)))
     pool += ['index', 'col:1', 'col-1', 'col.1', 'col 1', 'col:2', 'col-2']
-    return [x for x in pool if x and re.match(r"^[A-Za-z0-9_:. -]+$", x)]
+    pool = [x for x in pool if x and re.match(r"^[A-Za-z0-9_:. -]+$", x)]
+    return pool + LONG_VALUES + UNICODE_VALUES
+
+
+# values longer than any "portable" name length that differ only near their end (a generator that cuts names must still
+# keep them apart), as one word and as several words
+LONG_WORD = 'Lng' + 'abcdefghij' * 7
+LONG_PHRASE = 'Supercalifragilistic expialidocious ' * 3
+LONG_VALUES = [LONG_WORD + '1', LONG_WORD + '2', LONG_PHRASE + 'One', LONG_PHRASE + 'Two']
+# values with characters outside ASCII: precomposed / combining accents, and compatibility characters whose normal forms
+# are forbidden ASCII characters (ellipsis -> '...', fullwidth colon / solidus / full stop / question mark, ligature fi)
+UNICODE_VALUES = ['caf\u00e9', 'cafe\u0301', 'To-be-continued\u2026', 'a\uff1ab', 'c\uff0fd', 'e\uff0ef', 'wh\uff1f', 'of\ufb01ce',
+                  '\u00dcber \u00e4\u00f6', '\u4e2d\u6587']
 
 
 class TreeGen:
@@ -252,6 +264,24 @@ class TreeGen:
         if root.title is None:
             root.title = 'Doc' if self.noblank else ''
         res = pre + [root]
+        if rng.random() < 0.12:
+            # two sections whose label / title agree in a long prefix (or are equal up to character normalisation)
+            secs = []
+            def walk(n):
+                for k in n.kids:
+                    if not k.is_text():
+                        if isinstance(k.level, int) and k.level <= 6 and not k.foot and not k.uni:
+                            secs.append(k)
+                        walk(k)
+            walk(root)
+            if len(secs) >= 2:
+                a, b = rng.sample(range(len(secs)), 2)
+                v1, v2 = rng.choice([(LONG_WORD + '1', LONG_WORD + '2'), ('caf\u00e9', 'cafe\u0301'), ('a\uff1ab', 'a:b'),
+                                     ('e\uff0ef', 'e.f')])
+                if rng.random() < 0.6:
+                    secs[a].id, secs[b].id = v1, v2
+                else:
+                    secs[a].title, secs[b].title = v1, v2
         if rng.random() < 0.2:
             res.append(self.text())
         if self.malformed:
@@ -446,11 +476,12 @@ def names_ok(names, bad, template, ext):
     """distinct, and none of the forbidden characters (outside what the template / extension spell literally)"""
     if len(set(names)) != len(names):
         return 'duplicate names %r' % (names,)
-    lit = set(template) | set(ext)
+    lit = set(template)
     for n in names:
         if n is None:
             return 'no name issued (None)'
-        for c in n:
+        stem = n[:-len(ext)] if ext and n.endswith(ext) else n        # the extension the generator adds is spelled by the configuration
+        for c in stem:
             if c in bad and c not in lit:
                 return 'forbidden character %r in %r' % (c, n)
     return ''
@@ -663,6 +694,13 @@ class DocGen:
     def __init__(self, rng, template=''):
         self.rng, self.tag, self.mark, self.nsec = rng, 0, 0, 0
         self.pool = collision_pool(template)
+        # now and then the first two units get labels / titles that agree in a long prefix, or that are equal up to
+        # character normalisation
+        self.pair = None
+        if rng.random() < 0.12:
+            self.pair = (rng.choice(['title', 'label', 'both']),
+                         rng.choice([(LONG_PHRASE + 'One', LONG_PHRASE + 'Two'), (LONG_WORD + '1', LONG_WORD + '2'),
+                                     ('caf\u00e9', 'cafe\u0301'), ('To be continued\u2026', 'To be continued...')]))
 
     def newtag(self):
         self.tag += 1
@@ -726,14 +764,22 @@ class DocGen:
         title = title % k if '%d' in title else title
         if rng.random() < 0.12:
             title = rng.choice(self.pool)            # a title that collides with a name the template produces anyway
+        forced_label = None
+        if self.pair and k <= 2:
+            if self.pair[0] in ('title', 'both'):
+                title = self.pair[1][k - 1]
+            if self.pair[0] in ('label', 'both'):
+                forced_label = self.pair[1][k - 1]
         star = rng.random() < 0.1
         node = T(tag=self.newtag(), level=level, title=title, name=SECTION_CMDS[level])
         cmd = '\\%s%s{%s}' % (SECTION_CMDS[level], '*' if star else '', title)
-        if rng.random() < 0.45:
+        if rng.random() < 0.45 or forced_label:
             f = rng.choice(ID_FORMS)
             node.id = f % k if '%d' in f else f
             if rng.random() < 0.25:
                 node.id = rng.choice(self.pool)      # a label that collides with a static / numbered name or another label
+            if forced_label:
+                node.id = forced_label
             cmd += '\\label{%s}' % node.id
         lines.append(cmd)
         self.body(node, lines)
